@@ -54,6 +54,14 @@ theorem reliable_write_spins_on_zero (n : Nat) (b : UInt8) (bs : Bytes) (os : OS
     simp only [List.drop_zero, List.isEmpty_cons, Bool.false_eq_true, if_false]
     exact ih _ hl rfl
 
+/-- The driver runs `reliable_write` on sizes only (a 100 MiB buffer is not materialised): that
+    loop issues the same requests, gets the same answers and ends in the same outcome and OS
+    state (up to the file content) as the byte-level `rwLoop` the theorems above are about. -/
+theorem driver_rw_is_reliable_write (maxw fuel : Nat) (os : OS) (buf : Bytes) :
+    (rwLoopN maxw fuel os.forget buf.length []).1 = (rwLoop maxw fuel os buf).1 ∧
+    (rwLoopN maxw fuel os.forget buf.length []).2.1 = (rwLoop maxw fuel os buf).2.forget :=
+  rwLoopN_rwLoop maxw fuel os buf []
+
 /-! ## close() returned normally ⇒ complete file, right size; any fault ⇒ an exception -/
 
 /-- the first finished call that is not a quietly successful operator()/flush() -/
